@@ -13,47 +13,47 @@ import (
 )
 
 type HarnessResult struct {
-	Name          string            `json:"harness"`
-	Pkg           string            `json:"package"`
-	Paths         int               `json:"paths_explored"`
-	Done          int               `json:"paths_completed"`
-	Infeasible    int               `json:"paths_pruned"`
-	Obligations   int               `json:"obligations"`
-	Discharged    int               `json:"discharged"`
-	Trivial       int               `json:"discharged_without_solver"`
-	Steps         int               `json:"ssa_instructions_executed"`
-	Queries       int               `json:"queries"`
-	SolverS       float64           `json:"solver_s"`
-	Sat           int               `json:"sat"`
-	Unsat         int               `json:"unsat"`
-	Unknown       int               `json:"unknown"`
-	WonBy         map[string]int    `json:"answered_first_by,omitempty"`
-	Reached       map[string]int    `json:"witnesses_reached"`
-	Missing       []string          `json:"witnesses_missing,omitempty"`
-	Inconcl       []string          `json:"inconclusive,omitempty"`
-	CEs           []*CounterExample `json:"-"`
-	Funcs         map[string]int    `json:"-"`
-	Samples       []string          `json:"-"`
-	Validation    []*pathSample     `json:"-"`
-	Unwind        int               `json:"unwind_bound"`
-	WallS         float64           `json:"wall_s"`
-	Truncated     bool              `json:"path_limit_hit,omitempty"`
-	Retried       bool              `json:"retried_with_tripled_solver_limits,omitempty"`
-	Crossed       int               `json:"queries_answered_identically_by_two_or_more_solvers,omitempty"`
-	sampling       int // (unused) samples being computed
-	skippedSamples int // completed paths not eligible for native validation
-	Compose       *composeResult    `json:"scheduler_composition,omitempty"`
-	StageA        int               `json:"string_queries_decided_unbounded"`
-	StageB        int               `json:"string_queries_decided_bounded"`
-	StrLen        int               `json:"string_length_bound_stage_b"`
-	BoundedUnsat  int               `json:"unsat_verdicts_valid_up_to_string_length_bound_only"`
-	BoundedNA     int               `json:"queries_outside_bounded_encoding"`
-	CacheHits     int               `json:"query_cache_hits"`
-	ArithOnly     int               `json:"obligations_discharged_by_arithmetic_abstraction"`
-	StageL        int               `json:"queries_decided_by_exact_length_abstraction"`
-	StageG        int               `json:"sat_verdicts_by_guess_and_check_model"`
-	Opaque        int               `json:"secrecy_obligations_by_ideal_term_walk,omitempty"`
-	BoundTooSmall int               `json:"queries_where_string_bound_admitted_no_model_of_path_condition"`
+	Name           string            `json:"harness"`
+	Pkg            string            `json:"package"`
+	Paths          int               `json:"paths_explored"`
+	Done           int               `json:"paths_completed"`
+	Infeasible     int               `json:"paths_pruned"`
+	Obligations    int               `json:"obligations"`
+	Discharged     int               `json:"discharged"`
+	Trivial        int               `json:"discharged_without_solver"`
+	Steps          int               `json:"ssa_instructions_executed"`
+	Queries        int               `json:"queries"`
+	SolverS        float64           `json:"solver_s"`
+	Sat            int               `json:"sat"`
+	Unsat          int               `json:"unsat"`
+	Unknown        int               `json:"unknown"`
+	WonBy          map[string]int    `json:"answered_first_by,omitempty"`
+	Reached        map[string]int    `json:"witnesses_reached"`
+	Missing        []string          `json:"witnesses_missing,omitempty"`
+	Inconcl        []string          `json:"inconclusive,omitempty"`
+	CEs            []*CounterExample `json:"-"`
+	Funcs          map[string]int    `json:"-"`
+	Samples        []string          `json:"-"`
+	Validation     []*pathSample     `json:"-"`
+	Unwind         int               `json:"unwind_bound"`
+	WallS          float64           `json:"wall_s"`
+	Truncated      bool              `json:"path_limit_hit,omitempty"`
+	Retried        bool              `json:"retried_with_tripled_solver_limits,omitempty"`
+	Crossed        int               `json:"queries_answered_identically_by_two_or_more_solvers,omitempty"`
+	sampling       int               // (unused) samples being computed
+	skippedSamples int               // completed paths not eligible for native validation
+	Compose        *composeResult    `json:"scheduler_composition,omitempty"`
+	StageA         int               `json:"string_queries_decided_unbounded"`
+	StageB         int               `json:"string_queries_decided_bounded"`
+	StrLen         int               `json:"string_length_bound_stage_b"`
+	BoundedUnsat   int               `json:"unsat_verdicts_valid_up_to_string_length_bound_only"`
+	BoundedNA      int               `json:"queries_outside_bounded_encoding"`
+	CacheHits      int               `json:"query_cache_hits"`
+	ArithOnly      int               `json:"obligations_discharged_by_arithmetic_abstraction"`
+	StageL         int               `json:"queries_decided_by_exact_length_abstraction"`
+	StageG         int               `json:"sat_verdicts_by_guess_and_check_model"`
+	Opaque         int               `json:"secrecy_obligations_by_ideal_term_walk,omitempty"`
+	BoundTooSmall  int               `json:"queries_where_string_bound_admitted_no_model_of_path_condition"`
 }
 
 type pathSample struct {
